@@ -10,10 +10,12 @@ import (
 	"math/rand/v2"
 	"os"
 	"sort"
+	"strings"
 	"testing"
 	"time"
 
 	"qsimharness/core"
+	"zzsim"
 	_ "qsimharness/scen"
 )
 
@@ -96,6 +98,7 @@ type Summary struct {
 	WallSeconds  float64             `json:"wall_seconds"`
 	Stopped      string              `json:"stopped"`
 	Batches      map[string]int      `json:"batches"`
+	Sites        map[string]int      `json:"sites"` // statement sites of the code under test passed by a running goroutine
 	_            map[string]struct{} `json:"-"`
 }
 
@@ -272,6 +275,12 @@ func batch(t *testing.T, job *Job) {
 	sort.Slice(sum.Fingerprints, func(i, j int) bool { return sum.Fingerprints[i] < sum.Fingerprints[j] })
 	sort.Slice(sum.EventFPs, func(i, j int) bool { return sum.EventFPs[i] < sum.EventFPs[j] })
 	sum.WallSeconds = time.Since(start).Seconds()
+	sum.Sites = map[string]int{}
+	for k, n := range zzsim.CoverSnapshot() {
+		if !strings.HasPrefix(k, "scen/") {
+			sum.Sites[k] = n
+		}
+	}
 	emit("summary", sum)
 }
 
